@@ -16,6 +16,14 @@ TEXT = {
    text='Unbounded rely/guarantee proof on the six real rwlock functions: DFCC-enforced contracts, each CAS-retry loop closed by a loop contract, adversarial interference (any state word satisfying the invariant) before every access; the step monitor classifies every successful CAS as direct acquire / queue / plain release / grant-one-writer / grant-all-readers and checks its guard on the value the CAS replaced; unlock proved to issue exactly one wake on the right list with exactly the granted count; try variants proved never to queue or park; lemma layer (all 2^64 words): actions inductive, inside rely, writer exclusive, readers share, nobody queued on a free lock, release admits one writer or all readers; bit-field layout lemma.',
    note='Park/unpark by contract (trusted here, enforced under C01); SC; 21-bit field capacity; termination of CAS retry loops not proved.',
    technique='CBMC function+loop contracts (DFCC) on woven real code, rely/guarantee over the packed state word, SAT lemmas', ref='5 C07'),
+ 'C06': dict(
+   text='Unbounded rely/guarantee proof on the real fiber_semaphore_wait/trywait/post_internal/post: DFCC-enforced contracts, the trywait CAS loop and both nested retry loops of post closed by loop contracts, interference before every access; the step monitor classifies each counter write (direct admission / announce / post-CAS on a non-negative counter / compensating increment after a pop on a negative counter); post proved to deliver its unit exactly once; lemma layer proves the conservation law S + max(c,0) + in-flight = init + P inductive for two arbitrary actors and derives no over-admission, no lost post, quiescent value.',
+   note='Park/unpark (mpmc variant) by contract (trusted here, enforced under C01); SC; capacity 2^30; termination of retry loops not proved.',
+   technique='CBMC function+loop contracts (DFCC) on woven real code, rely/guarantee ghost counters, SAT lemmas', ref='5 C06, Appendix A.2'),
+ 'C12': dict(
+   text='Contract proof on the real fiber_barrier_wait (DFCC): one arrival per call, the serial branch wakes exactly count-1 once and never parks, every other arrival parks exactly once and returns only when the round is full (given the park contract); for symbolic count plus, for concrete counts 1..6 (quick) and 7..33 (thorough), all 2^64 arrival numbers: exactly the arrival completing the round is told SERIAL. Protocol lemma (which entries the serial fiber can pop) proved in the restricted form (no re-entry during the wake loop); the unrestricted lemma fails on the pinned tree: known finding D4 with a native witness.',
+   note='Park/unpark by contract; the park contract (grant issued by my round\'s serial fiber) holds only under the twin restriction - D4; symbolic-count modulo cross-check infeasible for SAT (concrete counts instead, labelled); exactly count participants.',
+   technique='CBMC function contracts (DFCC) on woven real code, protocol lemma, concrete-count instances for the modulo clause', ref='5 C12, 9 D4'),
 }
 NOT_YET = 'check not built yet at this commit (DESIGN.md section 5 describes the planned contracts)'
 checks, na = [], []
